@@ -73,6 +73,8 @@ pub mod interner;
 use interner::{HasInterner, Interner};
 
 pub mod could_match;
+#[cfg(chalk_verif)]
+pub mod verif;
 pub mod debug;
 
 /// Variance
